@@ -395,6 +395,15 @@ struct Exec {
         if (done) {
             uint64_t cw, cl;
             probe_clean(op, save_to, cw, cl);
+            // "second_save": the file that is kept (and checked) is the second one written from the same
+            // in-memory library; whatever a save leaves behind in the library must not change the next one
+            bool second = op.getb("second_save") && op.at("fault").k != J::Obj;
+            if (second) {
+                guarded([&]() { save_to("/sim/.first"); });
+                W->fs.files.erase("/sim/.first");
+                count("second_save_of_the_same_library");
+                if (!have_ts) sim::civil_from_time(W->clock.now, &given);  // the clock has moved on
+            }
             done = guarded([&]() {
                 set_policy(op, cw, cl);
                 save_to(file.c_str());
@@ -418,8 +427,16 @@ struct Exec {
         std::string file = op.gets("file");
         ErrorCode ec = ErrorCode::NoError;
         // write_oas installs S_* properties in the library it is given: every attempt gets a fresh one
+        bool second = op.getb("second_save") && op.at("fault").k != J::Obj;
         auto save_to = [&](const char* fname) {
             bridge::Built t = bridge::build(models[k]);
+            if (second && std::string(fname) == file) {
+                // the kept file is the second one written from the same in-memory library (first under the
+                // other detection flags): what a save installs in the library must not leak into the next file
+                t.lib.write_oas("/sim/.first", op.getd("tol"), (uint8_t)((op.geti("level") + 3) % 10), (uint16_t)(op.geti("flags") ^ 0x3f));
+                W->fs.files.erase("/sim/.first");
+                count("second_save_of_the_same_library");
+            }
             ec = t.lib.write_oas(fname, op.getd("tol"), (uint8_t)op.geti("level"), (uint16_t)op.geti("flags"));
             t.destroy();
         };
@@ -481,6 +498,20 @@ struct Exec {
                 if (at < 0) at = 0;
                 return (uint64_t)at % len;
             }
+        }
+        if (op.has("tail_like_signature")) {
+            // a prefix whose last five bytes read as "validation scheme 1 or 2 + four bytes": the readers that
+            // look at the tail of the file must not take what they find there for a signature that matches
+            const std::vector<uint8_t>& b = W->fs.bytes(src);
+            std::vector<uint64_t> cand, better;
+            for (uint64_t i = 14; i + 5 <= len && i + 5 < b.size(); i++)
+                if (b[i] == 1 || b[i] == 2) {
+                    cand.push_back(i + 5);
+                    if (b[i + 1] == 0) better.push_back(i + 5);  // a NUL next: partial comparisons stop early
+                }
+            uint64_t pick = (uint64_t)op.geti("tail_like_signature");
+            if (!better.empty() && (pick & 1)) return better[(pick >> 1) % better.size()] % len;
+            if (!cand.empty()) return cand[(pick >> 1) % cand.size()] % len;
         }
         if (op.has("spot")) {
             int64_t sp = op.geti("spot");
@@ -2037,6 +2068,39 @@ struct Exec {
         check_handles(prop, ctx);
     }
 
+    // history between a load and a re-save: the loaded library gains a reference from one of its cells to a
+    // later one (which stops being a top cell if it was one); keeps the cell graph acyclic because cells are
+    // stored, and loaded, with references pointing to later cells only
+    void op_edit_add_ref(const J& op) {
+        std::string name = op.gets("lib");
+        if (!libs.count(name)) return;
+        Library& lib = libs[name];
+        uint64_t n = lib.cell_array.count;
+        if (lib.name == NULL || n < 2) return;
+        uint64_t a = (uint64_t)op.geti("a") % (n - 1);
+        uint64_t b = a + 1 + (uint64_t)op.geti("b") % (n - 1 - a);
+        // only towards a cell that does not (transitively) place the first one
+        Cell* from = lib.cell_array[a];
+        Cell* to = lib.cell_array[b];
+        bool cyclic = false;
+        guarded([&]() {
+            Map<Cell*> deps = {};
+            to->get_dependencies(true, deps);
+            cyclic = deps.has_key(from->name);
+            deps.clear();
+        });
+        if (cyclic || from == to) return;
+        guarded([&]() {
+            Reference* r = (Reference*)allocate_clear(sizeof(Reference));
+            r->type = ReferenceType::Cell;
+            r->cell = to;
+            r->magnification = 1;
+            r->origin = Vec2{(double)op.geti("dx") * lib.precision / lib.unit, (double)op.geti("dy") * lib.precision / lib.unit};
+            from->reference_array.append(r);
+        });
+        count("edit_add_ref");
+    }
+
     void op_resave_oas(const J& op) {
         std::string from = op.gets("from"), file = op.gets("file");
         if (!libs.count(from)) return;
@@ -2306,7 +2370,9 @@ struct Exec {
         got.precision = d.lib.precision;
         if (op.getd("circle_tol", 0) > 0) accept_circles(k, op.getd("circle_tol"), 1e-9, E, got);
         std::string clause, why;
-        if (canon::differ(E.c, got, false, clause, why)) {
+        // (a file written from a library that was itself loaded is compared for content by C02's cycles; here
+        // only its statements about itself are of interest)
+        if (!op.getb("resaved") && canon::differ(E.c, got, false, clause, why)) {
             viol(prop, "peer_" + clause, "decoded by the independent decoder: " + why, ctx);
             return;
         }
@@ -2316,7 +2382,11 @@ struct Exec {
         std::set<std::string> placed;
         for (auto& c : d.lib.cells)
             for (auto& r : c.refs) placed.insert(r.target);
-        if (flags & OASIS_CONFIG_PROPERTY_TOP_LEVEL) {
+        bool any_top = false;
+        for (auto& p : d.file_props) any_top = any_top || p.name == "S_TOP_CELL";
+        // requested, or present although not requested (carried over from the file the library was loaded from):
+        // either way it is this file's statement about its top cells
+        if ((flags & OASIS_CONFIG_PROPERTY_TOP_LEVEL) || any_top) {
             std::set<std::string> tops, said;
             for (auto& c : d.lib.cells)
                 if (!placed.count(c.name)) tops.insert(c.name);
@@ -2327,7 +2397,9 @@ struct Exec {
                 std::string a, b;
                 for (auto& t : tops) a += " " + t;
                 for (auto& t : said) b += " " + t;
-                viol(prop, "s_top_cell", "S_TOP_CELL lists {" + b + " } but the cells no placement refers to are {" + a + " }", ctx);
+                J c2 = ctx;
+                if (!(flags & OASIS_CONFIG_PROPERTY_TOP_LEVEL)) c2.set("requested", false);
+                viol(prop, "s_top_cell", "S_TOP_CELL lists {" + b + " } but the cells no placement refers to are {" + a + " }", c2);
             }
         }
         if (flags & OASIS_CONFIG_PROPERTY_CELL_OFFSET) {
@@ -2338,10 +2410,24 @@ struct Exec {
                 else if (v->u != cf.offset)
                     viol(prop, "s_cell_offset", "S_CELL_OFFSET of cell '" + cf.name + "' is " + std::to_string(v->u) + ", its CELL record is at " + std::to_string(cf.offset), ctx);
             }
+        } else {
+            // not requested, but present (the library came from a file that had them): a cell offset is a
+            // statement about this file whoever asked for it
+            for (auto& cf : d.cells) {
+                const model::MVal* v = std_val(cf.name_props, "S_CELL_OFFSET", 0);
+                if (v && v->kind == 0 && v->u != cf.offset) {
+                    J c2 = ctx;
+                    c2.set("requested", false);
+                    viol(prop, "s_cell_offset", "S_CELL_OFFSET of cell '" + cf.name + "' is " + std::to_string(v->u) + " (not requested for this file, carried over from the file the library was loaded from), its CELL record is at " + std::to_string(cf.offset), c2);
+                    break;
+                }
+            }
         }
-        if (flags & OASIS_CONFIG_PROPERTY_BOUNDING_BOX) {
+        bool bbox_requested = (flags & OASIS_CONFIG_PROPERTY_BOUNDING_BOX) != 0, any_bbox = false;
+        for (auto& cf : d.cells) any_bbox = any_bbox || std_val(cf.name_props, "S_BOUNDING_BOX", 0) != nullptr;
+        if (bbox_requested || any_bbox) {
             const model::MVal* av = std_val(d.file_props, "S_BOUNDING_BOXES_AVAILABLE", 0);
-            if (!av || av->u != 2) viol(prop, "s_bounding_boxes_available", "S_BOUNDING_BOXES_AVAILABLE is missing or not 2", ctx);
+            if (bbox_requested && (!av || av->u != 2)) viol(prop, "s_bounding_boxes_available", "S_BOUNDING_BOXES_AVAILABLE is missing or not 2", ctx);
             std::map<std::string, CellGeo> geo_memo;
             std::map<std::string, bool> by_name_memo;
             for (size_t i = 0; i < d.cells.size(); i++) {
@@ -2361,7 +2447,7 @@ struct Exec {
                 const model::MVal* w = std_val(cf.name_props, "S_BOUNDING_BOX", 3);
                 const model::MVal* h = std_val(cf.name_props, "S_BOUNDING_BOX", 4);
                 if (!f || !x || !y || !w || !h) {
-                    viol(prop, "s_bounding_box", "cell '" + cf.name + "' has no complete S_BOUNDING_BOX property although it was requested", ctx);
+                    if (bbox_requested) viol(prop, "s_bounding_box", "cell '" + cf.name + "' has no complete S_BOUNDING_BOX property although it was requested", ctx);
                     continue;
                 }
                 count("bbox_checked");
@@ -2376,6 +2462,7 @@ struct Exec {
                     snprintf(buf, sizeof buf, "S_BOUNDING_BOX of cell '%s' says (%g,%g)+(%g,%g), the decoded content spans (%g,%g)-(%g,%g)", cf.name.c_str(),
                              val(x), val(y), val(w), val(h), bb.x0, bb.y0, bb.x1, bb.y1);
                     ctx.set("exact_transforms", exact);
+                    if (!bbox_requested) ctx.set("requested", false);
                     ctx.set("by_name_reference_below", has_by_name(m, cf.name, by_name_memo));
                     viol(prop, "s_bounding_box", buf, ctx);
                 }
@@ -2503,6 +2590,7 @@ struct Exec {
             else if (opname == "stamp") op_stamp(op);
             else if (opname == "load_check_oas") op_load_check_oas(op);
             else if (opname == "resave_oas") op_resave_oas(op);
+            else if (opname == "edit_add_ref") op_edit_add_ref(op);
             else if (opname == "validate_check") op_validate_check(op);
             else if (opname == "peer_check_oas") op_peer_check_oas(op);
             else if (opname == "peer_oas") op_peer_oas(op);
